@@ -31,6 +31,22 @@ Control flow: `if` -> ite, `for`/`while` -> loop (trip count abstracted),
 statement of the body may be the last one executed, then the handlers are
 optional; `raise` -> `ret 0`.
 
+Precision devices (each one a statement about Python that the dynamic monitor and the construct tests of
+tools/py2lean/alias_constructs.py validate):
+  * kinds: `imm` values have no roots; `list<imm>` etc. from displays, docstrings (A1: parameters AND the documented
+    entries of **kwargs read by a constant name before the function overwrites them), the YAML name tables
+    (kinds read off data/var_mappings.yml itself);
+  * element variables X' of *simple* local containers (see simple_locals): reading an element of a container that can
+    only be reached through one local name is `alias t X'`, not `view t [X]`;
+  * `del p` of a parameter followed by a new binding: the rest of the block uses a new local (rename_after_del);
+  * A4: AurelCore.data is the cache (`store`), last_accessed / var_importance its bookkeeping (check_bookkeeping).
+numpy calls are classified by name (NP_FRESH / NP_VIEW0 / NP_MUT0, anything else is refused) and by how they are
+called: `out=` (also as a tuple), a positional `out` (position taken from numpy's own signature / ufunc.nin),
+`overwrite_input=` (keyword or positional) -> `mutate`; `copy=` -> result may share memory; `**kwargs` -> refused.
+ndarray methods with `out=` -> `mutate`; too many positional arguments -> refused; `x.conj()` / np.flip are views.
+`list.sort(x)` / `dict.update(d, e)` through the type are rewritten to bound method calls.  Entries of module-level
+function tables (time.est_functions) must be lambdas (translated), module functions, or numpy functions of NP_FRESH.
+
 Outputs: Gen/AliasIR.lean (the program), Gen/AliasSumm.lean (summary table
 computed by Driver/C02.lean = certificate), Gen/AliasChk<k>.lean (kernel
 decides `checkFn` for a range of functions), Gen/AliasCheck.lean (the chunks
@@ -38,8 +54,11 @@ together are `checkWith program summaries`).
 
 Exemptions and assumptions (each validated by the dynamic monitor of
 tools/props/C02.py) are collected in CPUB_EXEMPT / NONSTRICT / EXPR_KINDS /
-PARAM_KINDS / CALLBACK_PARAMS / SKIP_FUNCS below; A1 = documented parameter
-types, A2 = rel.data entries have the type their key's method returns.
+PARAM_KINDS / CALLBACK_PARAMS / SKIP_FUNCS / BOOKKEEPING_ATTRS below; A1 = documented
+parameter (and keyword entry) types, A2 = rel.data entries have the type their key's
+method returns, A3 = callbacks are pure, A4 = cache bookkeeping.  Functions of reading.py
+and time.py carry the container-level claim (`strict`, `cpub`); NAMED_FUNCTIONS get a
+constant `fid_<module>_<name>` for Props/C02Containers.lean.
 """
 import ast
 import os
